@@ -344,6 +344,18 @@ func runC16(res *Result, d *Driver, g *Rng, tier string) {
 	for i := 0; i < 1500; i++ {
 		arb = append(arb, g.Bytes(g.Intn(24)))
 	}
+	// complete triplet sequences followed by 1..3 stray octets, or with the last value one octet short
+	for i := 0; i < 300; i++ {
+		var m []byte
+		for k := g.Intn(4); k >= 0; k-- {
+			v := g.Bytes(g.Intn(6))
+			m = append(m, byte(g.Intn(256)), byte(g.Intn(256)), 0, byte(len(v)))
+			m = append(m, v...)
+		}
+		arb = append(arb, append([]byte(nil), m...))
+		arb = append(arb, append(append([]byte(nil), m...), g.Bytes(1+g.Intn(3))...))
+		arb = append(arb, append([]byte(nil), m[:len(m)-1]...))
+	}
 	for i, b := range arb {
 		op := "tlv read " + hx(b)
 		res.Eval(op, len(b) > 0)
@@ -351,10 +363,9 @@ func runC16(res *Result, d *Driver, g *Rng, tier string) {
 		_, m2 := goReadTLVs(b)
 		_, m3 := goReadOptions(b)
 		l4, m4 := goParseOptions(b)
-		if i%3 == 0 || len(b) <= 2 {
-			add(op, l1)
-			add("tlv parse "+hx(b), l4)
-		}
+		_ = i
+		add(op, l1) // every string goes to the model as well: ParseOptions accepts exactly the triplet sequences (C16_parse_options_accepts_exactly)
+		add("tlv parse "+hx(b), l4)
 		for name, m := range map[string][]tlv{"ReadTLVs1": m1, "ReadTLVs": m2, "ReadOptions": m3, "ParseOptions": m4} {
 			for _, e := range m {
 				if !present(b, e) {
